@@ -171,4 +171,19 @@ MUTATIONS = [
         raise ValueError("The variables to observe must be a non-empty subset of the scope")
 """, expect={}),
     dict(id="q-bimap-add-order", quiet=True, file=ALGO, old="        self._lhs_map[lhs] = rhs\n        self._rhs_map[rhs] = lhs\n", new="        self._rhs_map[rhs] = lhs\n        self._lhs_map[lhs] = rhs\n", expect={}),
+    # ---------------------------------------------------------------- R7d
+    dict(id="c08-smooth-subset", file="cirkit/symbolic/circuit.py", old="            self.layer_scope(sum_sl) == self.layer_scope(in_sl)\n", new="            self.layer_scope(sum_sl) >= self.layer_scope(in_sl)\n", expect={"C08": ["R7d:cirkit.symbolic.circuit.Circuit.is_smooth:definition"]}),
+    dict(id="c08-smooth-any", file="cirkit/symbolic/circuit.py", old="        return all(\n            self.layer_scope(sum_sl) == self.layer_scope(in_sl)\n", new="        return any(\n            self.layer_scope(sum_sl) == self.layer_scope(in_sl)\n", expect={"C08": ["R7d:cirkit.symbolic.circuit.Circuit.is_smooth:definition"]}),
+    dict(id="c08-decomposable-not-all", file="cirkit/symbolic/circuit.py", old="        return not any(\n            self.layer_scope(in_sl1) & self.layer_scope(in_sl2)\n", new="        return not all(\n            self.layer_scope(in_sl1) & self.layer_scope(in_sl2)\n", expect={"C08": ["R7d:cirkit.symbolic.circuit.Circuit.is_decomposable:definition"]}),
+    dict(id="c08-decomposable-sum-layers", file="cirkit/symbolic/circuit.py", old="            for prod_sl in self.product_layers\n            for in_sl1, in_sl2", new="            for prod_sl in self.sum_layers\n            for in_sl1, in_sl2", expect={"C08": ["R7d:cirkit.symbolic.circuit.Circuit.is_decomposable:definition"]}),
+    dict(id="c08-structured-any", file="cirkit/symbolic/circuit.py", old="        return all(len(fs) == 1 for _, fs in scope_factorizations.items())", new="        return any(len(fs) == 1 for _, fs in scope_factorizations.items())", expect={"C08": ["R7d:cirkit.symbolic.circuit.Circuit.is_structured_decomposable:one-factorization-per-scope"]}),
+    dict(id="q-smooth-not-any", quiet=True, file="cirkit/symbolic/circuit.py", old="        return all(\n            self.layer_scope(sum_sl) == self.layer_scope(in_sl)\n", new="        return not any(\n            self.layer_scope(sum_sl) != self.layer_scope(in_sl)\n", expect={}),
+    dict(id="q-decomposable-all-not", quiet=True, file="cirkit/symbolic/circuit.py", old="        return not any(\n            self.layer_scope(in_sl1) & self.layer_scope(in_sl2)\n", new="        return all(\n            not (self.layer_scope(in_sl1) & self.layer_scope(in_sl2))\n", expect={}),
+    dict(id="q-structured-values", quiet=True, file="cirkit/symbolic/circuit.py", old="        return all(len(fs) == 1 for _, fs in scope_factorizations.items())", new="        return not any(len(fs) > 1 for fs in scope_factorizations.values())", expect={}),
+    # ---------------------------------------------------------------- C16 structure guards
+    dict(id="c16-no-validation", file="cirkit/templates/region_graph/graph.py", old="        super().__init__(nodes, in_nodes, outputs)\n        self._check_structure()\n", new="        super().__init__(nodes, in_nodes, outputs)\n", expect={"C16": ["R6:cirkit.templates.region_graph.graph.RegionGraph.__init__:validates-on-construction"]}),
+    dict(id="c16-overlap-accepted", file="cirkit/templates/region_graph/graph.py", old="            if scope != node.scope or sum(len(sc) for sc in scopes) != len(scope):\n", new="            if scope != node.scope:\n", expect={"C16": ["R8:cirkit.templates.region_graph.graph.RegionGraph._check_structure:overlapping"]}),
+    dict(id="c16-cover-and", file="cirkit/templates/region_graph/graph.py", old="            if scope != node.scope or sum(len(sc) for sc in scopes) != len(scope):\n", new="            if scope != node.scope and sum(len(sc) for sc in scopes) != len(scope):\n", expect={"C16": ["R8:cirkit.templates.region_graph.graph.RegionGraph._check_structure:"]}),
+    dict(id="c16-partition-scope-unchecked", file="cirkit/templates/region_graph/graph.py", old="                    if ptn.scope != node.scope:\n", new="                    if ptn.scope > node.scope:\n", expect={"C16": ["R8:cirkit.templates.region_graph.graph.RegionGraph._check_structure:partition-scope-differs"]}),
+    dict(id="q-check-structure-merged", quiet=True, file="cirkit/templates/region_graph/graph.py", old="            if scope != node.scope or sum(len(sc) for sc in scopes) != len(scope):\n", new="            if sum(len(sc) for sc in scopes) != len(scope) or scope != node.scope:\n", expect={}),
 ]
